@@ -1225,6 +1225,7 @@ static void hostlist_delete_range(hostlist_t hl, int n)
 {
     int i;
     hostrange_t old;
+    hostlist_iterator_t hli;
 
     assert(hl != NULL);
     assert((hl->magic == HOSTLIST_MAGIC));
@@ -1235,6 +1236,12 @@ static void hostlist_delete_range(hostlist_t hl, int n)
         hl->hr[i] = hl->hr[i + 1];
     hl->nranges--;
     hl->hr[hl->nranges] = NULL;
+    /* an iterator standing on the deleted record moves to the previous one,
+     * all of which has been visited already */
+    for (hli = hl->ilist; hli; hli = hli->next) {
+        if (hli->idx == n && n > 0)
+            hli->depth = hl->hr[n - 1]->hi - hl->hr[n - 1]->lo;
+    }
     hostlist_shift_iterators(hl, n, 0, 1);
 
     /* XXX caller responsible for adjusting nhosts */
